@@ -387,14 +387,30 @@ fn wrap<T>(res: Result<T, RtcpParseError>, view: impl Fn(&T) -> Rec, panics: &mu
 pub fn typed(kind: &str, data: &[u8], pfx: &str, panics: &mut Vec<String>) -> Value {
     let r = guarded(|| {
         let mut pp = vec![];
+        // the typed value wrapped into the generic enum (From<T> for Packet): same variant, same contents
+        macro_rules! ty {
+            ($T:ty, $view:ident) => {{
+                let mut v = wrap(<$T>::parse(data), |p| $view(p, data, pfx), &mut pp);
+                if v["t"] == "ok" {
+                    let pkt = Packet::from(<$T>::parse(data).unwrap());
+                    let (pv, _) = packet_view(&pkt, data, pfx).done();
+                    let mut inner = pv["inner"].clone();
+                    let mut mine = v["view"].clone();
+                    inner.as_object_mut().map(|o| o.remove("again"));
+                    mine.as_object_mut().map(|o| o.remove("again"));
+                    v["as_packet"] = json!({"variant": pv["variant"], "same": inner == mine});
+                }
+                v
+            }};
+        }
         let v = match kind {
-            "sr" => wrap(SenderReport::parse(data), |p| sr_view(p, data, pfx), &mut pp),
-            "rr" => wrap(ReceiverReport::parse(data), |p| rr_view(p, data, pfx), &mut pp),
-            "sdes" => wrap(Sdes::parse(data), |p| sdes_view(p, data, pfx), &mut pp),
-            "bye" => wrap(Bye::parse(data), |p| bye_view(p, data, pfx), &mut pp),
-            "app" => wrap(App::parse(data), |p| app_view(p, data, pfx), &mut pp),
-            "tfb" => wrap(TransportFeedback::parse(data), |p| tfb_view(p, data, pfx), &mut pp),
-            "pfb" => wrap(PayloadFeedback::parse(data), |p| pfb_view(p, data, pfx), &mut pp),
+            "sr" => ty!(SenderReport, sr_view),
+            "rr" => ty!(ReceiverReport, rr_view),
+            "sdes" => ty!(Sdes, sdes_view),
+            "bye" => ty!(Bye, bye_view),
+            "app" => ty!(App, app_view),
+            "tfb" => ty!(TransportFeedback, tfb_view),
+            "pfb" => ty!(PayloadFeedback, pfb_view),
             _ => tool_error(&format!("typed: unknown kind {kind}")),
         };
         (v, pp)
